@@ -376,4 +376,64 @@ def odd_cases():
     case('EAStoryMove', 'four sources reversed', B.ea('MOVE', ABSENT, [B.ids('storyID', ['D', 'C', 'B', 'A'])]))
     case('StoryDelete', 'five ids mixed', B.story_delete(['B', 'ZZ', 'D', BLANK, 'B']))
     case('ItemMoveMultiple', 'all items before first', B.item_move_multiple('A', ['I2', 'I1', 'I1']))
+    # running orders that contain a story / an item whose own ID tag is EMPTY, against blank and
+    # non-blank references (a blank reference must not match a blank ID; lookups must not trip over it)
+    blank_ro = B.ro_doc([st('A'), B.story(BLANK, [B.item('I1'), B.item(BLANK), B.item('I2')]), st('C'),
+                         B.story('D', [B.item(BLANK), B.item('I1')])], pattern='every')
+    for lbl, msg in [
+            ('delete blank', B.story_delete([BLANK])), ('delete C after blank', B.story_delete(['C'])),
+            ('delete unknown', B.story_delete(['ZZ'])), ('replace blank', B.story_replace(BLANK, [X])),
+            ('replace C', B.story_replace('C', [X])), ('insert before blank', B.story_insert(BLANK, [X])),
+            ('insert before C', B.story_insert('C', [X])), ('move C before A', B.story_move(['C', 'A'])),
+            ('move blank', B.story_move([BLANK, 'A'])), ('send C', B.story_send('C', [B.p('x')])),
+            ('send blank', B.story_send(BLANK, [B.p('x')])),
+            ('ea delete blank,C', B.ea('DELETE', ABSENT, [B.ids('storyID', [BLANK, 'C'])])),
+            ('ea swap A,blank', B.ea('SWAP', ABSENT, [B.ids('storyID', ['A', BLANK])])),
+            ('ea swap C,D', B.ea('SWAP', ABSENT, [B.ids('storyID', ['C', 'D'])])),
+            ('ea move D before blank', B.ea('MOVE', {'storyID': BLANK}, [B.ids('storyID', ['D'])])),
+            ('ea replace blank', B.ea('REPLACE', {'storyID': BLANK}, [[X]])),
+            ('item delete blank in D', B.item_delete('D', [BLANK])), ('item delete I1 in D', B.item_delete('D', ['I1'])),
+            ('item replace blank in D', B.item_replace('D', BLANK, [new_item('N')])),
+            ('item replace I1 in D', B.item_replace('D', 'I1', [new_item('N')])),
+            ('item insert before I1 in D', B.item_insert('D', 'I1', [new_item('N')])),
+            ('item delete in blank story', B.item_delete(BLANK, ['I1'])),
+            ('item move in D', B.item_move_multiple('D', ['I1', BLANK])),
+            ('ea item swap I1,blank in D', B.ea('SWAP', {'storyID': 'D'}, [B.ids('itemID', ['I1', BLANK])])),
+            ('ea item delete blank,I1 in D', B.ea('DELETE', {'storyID': 'D'}, [B.ids('itemID', [BLANK, 'I1'])]))]:
+        cls = {'delete blank': 'StoryDelete', 'delete C after blank': 'StoryDelete', 'delete unknown': 'StoryDelete',
+               'replace blank': 'StoryReplace', 'replace C': 'StoryReplace', 'insert before blank': 'StoryInsert',
+               'insert before C': 'StoryInsert', 'move C before A': 'StoryMove', 'move blank': 'StoryMove',
+               'send C': 'StorySend', 'send blank': 'StorySend', 'ea delete blank,C': 'EAStoryDelete',
+               'ea swap A,blank': 'EAStorySwap', 'ea swap C,D': 'EAStorySwap', 'ea move D before blank': 'EAStoryMove',
+               'ea replace blank': 'EAStoryReplace', 'item delete blank in D': 'ItemDelete', 'item delete I1 in D': 'ItemDelete',
+               'item replace blank in D': 'ItemReplace', 'item replace I1 in D': 'ItemReplace',
+               'item insert before I1 in D': 'ItemInsert', 'item delete in blank story': 'ItemDelete',
+               'item move in D': 'ItemMoveMultiple', 'ea item swap I1,blank in D': 'EAItemSwap',
+               'ea item delete blank,I1 in D': 'EAItemDelete'}[lbl]
+        case(cls, 'blank IDs in RO: ' + lbl, msg, blank_ro)
+    # carriage returns (only enterable as &#13;) inside carried payloads
+    CR = '@@CR@@'
+    crp = lambda: B.p('line one' + CR + 'line two')
+    for cls, msg in [('StorySend', B.story_send('B', [crp(), B.item('S1', extra=[E('note', text='a' + CR, tail=CR + 'z')])])),
+                     ('StoryAppend', B.story_append([B.story('X', [crp()])])),
+                     ('StoryInsert', B.story_insert('C', [B.story('X', [crp(), B.item('X1')])])),
+                     ('ItemInsert', B.item_insert('B', 'I1', [B.item('N', extra=[E('note', text=CR + 'n' + CR)])])),
+                     ('MetaDataReplace', B.metadata_replace([E('roSlug', text='slug' + CR + 'x')])),
+                     ('RunningOrderReplace', B.ro_replace([B.story('X', [crp()])]))]:
+        case(cls, 'payload with U+000D', msg)
+        out[-1]['msg_text'] = TJ.to_text(msg).replace(CR, '&#13;')
+    # messages addressed to ANOTHER running order (different roID): the merge methods do not look at it
+    for cls, msg in [('RunningOrderEnd', B.ro_delete(ro_id='OTHER')), ('StoryAppend', B.story_append([X], ro_id='OTHER')),
+                     ('StoryDelete', B.story_delete(['B'], ro_id='OTHER')), ('ReadyToAir', B.ready_to_air(ro_id='OTHER')),
+                     ('MetaDataReplace', B.metadata_replace([E('roSlug', text='s')], ro_id='OTHER'))]:
+        case(cls, 'other roID', msg)
+    # completed running orders refuse every class, a second roDelete included
+    done = TJ.canon(ro)
+    done[4].append(E('mosromgrmeta', E('roDelete', E('roID', text='RO1'))))
+    for cls, msg in [('RunningOrderEnd', B.ro_delete()), ('ReadyToAir', B.ready_to_air()), ('StoryAppend', B.story_append([X])),
+                     ('RunningOrderReplace', B.ro_replace([X])), ('MetaDataReplace', B.metadata_replace([E('roSlug', text='s')])),
+                     ('StoryDelete', B.story_delete(['A'])), ('StorySend', B.story_send('A', [B.p('x')])),
+                     ('EAStorySwap', B.ea('SWAP', ABSENT, [B.ids('storyID', ['A', 'B'])])),
+                     ('ItemDelete', B.item_delete('A', ['I1'])), ('EAItemMove', B.ea('MOVE', {'storyID': 'A', 'itemID': BLANK}, [B.ids('itemID', ['I1'])]))]:
+        case(cls, 'completed running order', msg, done)
     return out
